@@ -108,10 +108,8 @@ def processHeader (udc : Bool) (al : List (Str × List Str)) (cols : List Str) (
   | some (t0 :: rest) =>
     let nh := toSnakeCase t0
     match lookup nh al with
-    | some [] => some (.str h, t0 :: rest)     -- falsy alias value (none in the table)
-    | some [one] => some (.str one, one :: rest)
-    | some toks => some (.tup, toks ++ rest)
-    | none =>
+    | some (a :: as) => some (if as.isEmpty then .str a else .tup, (a :: as) ++ rest)
+    | _ =>           -- no alias (or a falsy alias value: none in the table)
       if cols.contains nh then some (.str nh, nh :: rest) else some (.str h, t0 :: rest)
 
 inductive HErr where
